@@ -12,7 +12,7 @@ package redisemu
 
 func vListBound() int {
 	if vTier() > 0 {
-		return 4
+		return 5
 	}
 	return 3
 }
